@@ -82,7 +82,7 @@ type ContractDB struct {
 var clauseKinds = map[string]bool{
 	"props": true, "mode": true, "requires": true, "ensures": true, "modifies": true,
 	"loop": true, "lemma": true, "ghost": true, "panics-when": true, "search-pred": true,
-	"replay": true, "replay-reader": true, "returns": true, "trusted": true, "assume": true, "unroll": true, "inline": true,
+	"replay": true, "replay-reader": true, "returns": true, "callsite": true, "trusted": true, "assume": true, "unroll": true, "inline": true,
 	"reads": true, "pure": true, "let": true, "assert": true, "nosafety": true,
 	"crash-invariant": true, "frame": true, "closure": true, "bound": true,
 }
@@ -229,6 +229,20 @@ func parseContractFile(db *ContractDB, path string, defaultPkg string) error {
 				r = r[len(m[0]):]
 			}
 			cl.Text = r
+		case "callsite":
+			// callsite <callee short name>: expr   (checked at every call of that callee inside this function)
+			if i := strings.Index(rest, ":"); i >= 0 {
+				cl.Name = strings.TrimSpace(rest[:i])
+				cl.Text = strings.TrimSpace(rest[i+1:])
+				if j := strings.Index(cl.Name, "["); j >= 0 && strings.HasSuffix(cl.Name, "]") {
+					for _, t := range strings.Split(cl.Name[j+1:len(cl.Name)-1], ",") {
+						cl.Tags = append(cl.Tags, strings.TrimSpace(t))
+					}
+					cl.Name = strings.TrimSpace(cl.Name[:j])
+				}
+			} else {
+				return fmt.Errorf("%s:%d: callsite <callee>: <expr>", path, ln)
+			}
 		case "lemma", "assert", "let":
 			// lemma name: text
 			if i := strings.Index(rest, ":"); i >= 0 && word != "let" {
